@@ -1951,7 +1951,23 @@ class PyDict:
 
     def key(self, I, k):
         if isinstance(k, SV) and not isinstance(k, SObj):
-            raise Unsupported("symbolic key in concrete dict")
+            # opaque keys: decided against the existing keys with the solver (equal / distinct under the path condition)
+            for existing in self.d:
+                if existing is k:
+                    return existing
+                if isinstance(existing, SV):
+                    r = I.equals(existing, k)
+                    if r is True:
+                        return existing
+                    if r is False:
+                        continue
+                    rz = to_bool(r)
+                    if not smt.feasible(I.path.hyps() + [rz]):
+                        continue
+                    if not smt.feasible(I.path.hyps() + [z3.Not(rz)]):
+                        return existing
+                    raise Unsupported("dict key equality undetermined")
+            return k
         return k
 
     def set(self, I, k, v):
